@@ -10,6 +10,15 @@ import Glom.Model.C17Env
     the prefix spec p = Iter(sub, sentinel=…).P…; d1 = p.E1…; d2 = p.E2… (after d1);
     T = {"items":[V…], "fin":"gotK"|"exhausted"|{"raised":cls}, "pulls":n}
     main = T (take / all) | {"first":{"found":V}|"default"|{"raised":cls}, "pulls":n}
+    every T / main also carries "src_after":{"rest":[V…],"ended":b,"closed":b}: what next() finds on the
+    source object after the run (at most "R" items asked), whether close() was called on it;
+    "srckind":"gen"|"obj"|"plain" says which kind of self-iterator the source is (the model is the same)
+  Reuse case (several pipelines over ONE source object, one after the other):
+    {"kind":"reuse", "srckind":…, "src":…, "R":n, "pipes":[{"sub":name,"sentinel":…,"ops":[op…]}…],
+     "form":"calls"|"dict", "steps":[{"pipe":i,"mode":"take","k":n}|{"pipe":i,"mode":"all"}|{"pipe":i,"mode":{"first":key}}…],
+     "impl":{"steps":[T | {"first":…,"pulls":n} …], "src_after":…}}
+    a "take" step creates the iterator of its pipe at its first use and resumes it later; "all"/"first"
+    steps (the only ones of a dict spec) run a fresh iterator; the sequence ends at the first exception
   Invoke case:
     {"kind":"invoke", "p":[call…], "e1":[call…], "e2":[call…], "target":V,
      "impl":{"repr_same":b, "before":R, "after":R, "reused":R, "fresh":R}}
@@ -107,7 +116,10 @@ def optNat (j : Json) : Except String (Option Nat) :=
 
 def entryOfJson (j : Json) : Except String Entry := do
   let op ← j.getObjValAs? String "op"
-  let f : Except String Fn := do fnOf (← j.getObjValAs? String "f")
+  -- no "f": the method was called without its key (the default, `T`)
+  let f : Except String Fn := (match j.getObjVal? "f" with
+    | .ok (.str n) => fnOf n
+    | _ => fnOf "T")
   match op with
   | "map" => return ⟨op, .map (← f)⟩
   | "filter" => return ⟨op, .filter (← f)⟩
@@ -133,8 +145,11 @@ def entryOfJson (j : Json) : Except String Entry := do
   | "split" =>
     let sep ← (match j.getObjVal? "sep" with
       | .ok sj =>
-        if let .ok v := sj.getObjVal? "scalar" then do return Sep.scalar (← vOfJson v)
+        -- `split(sep=None)` written out is the default: the grouping mode
+        if let .ok v := sj.getObjVal? "scalar" then do
+          return (match ← vOfJson v with | .none => Sep.none | w => Sep.scalar w)
         else if let .ok v := sj.getObjVal? "set" then do return Sep.set (← (← arr v).mapM vOfJson)
+        else if let .ok n := sj.getObjValAs? String "fn" then do return Sep.fn (← fnOf n)
         else pure Sep.none
       | .error _ => pure Sep.none)
     let m ← (match j.getObjVal? "maxsplit" with
@@ -177,6 +192,18 @@ def takeToJson (o : TakeObs) : Json :=
 
 def obsOfRun (r : RunOut) : TakeObs := ⟨r.items, r.fin, r.pulls⟩
 
+def afterOfJson (j : Json) : Except String SrcAfter := do
+  let a ← j.getObjVal? "src_after"
+  return ⟨← (← arr (← a.getObjVal? "rest")).mapM vOfJson, ← a.getObjValAs? Bool "ended", ← a.getObjValAs? Bool "closed"⟩
+
+def afterToJson (a : SrcAfter) : Json :=
+  Json.mkObj [("rest", Json.arr (a.rest.map vToJson).toArray), ("ended", a.ended), ("closed", a.closed)]
+
+def probeCount (j : Json) : Nat :=
+  match j.getObjValAs? Nat "R" with
+  | .ok r => r
+  | .error _ => 3
+
 def firstToJson : FirstObs → Json
   | .found v => Json.mkObj [("found", vToJson v)]
   | .default => "default"
@@ -202,6 +229,13 @@ def finName : Fin → String
   | .exhausted => "exhausted"
   | .raised e => s!"raised-{e}"
   | .oof => "oof"
+
+/-- `{"first": name}`; `{"first": null}`: `first()` / `first(default=D)` — the default key `T` -/
+def firstKey (modeJ : Json) : Except String Fn :=
+  match modeJ.getObjVal? "first" with
+  | .ok (.str n) => fnOf n
+  | .ok .null => fnOf "T"
+  | _ => .error s!"bad mode {modeJ.compress}"
 
 def runIter (j : Json) : Except String Json := do
   let fwd := genFacts.addOpForwardsSentinel
@@ -240,6 +274,15 @@ def runIter (j : Json) : Except String Json := do
   let iFresh ← takeOfJson (← impl.getObjVal? "fresh")
   let reprSame ← impl.getObjValAs? Bool "repr_same"
   let mainJ ← impl.getObjVal? "main"
+  let r := probeCount j
+  let aBefore ← afterOfJson (← impl.getObjVal? "before")
+  let aAfter ← afterOfJson (← impl.getObjVal? "after")
+  let aReused ← afterOfJson (← impl.getObjVal? "reused")
+  let aFresh ← afterOfJson (← impl.getObjVal? "fresh")
+  let srcHolds := checkSource src iBefore.pulls r aBefore && checkSource src iAfter.pulls r aAfter &&
+    checkSource src iReused.pulls r aReused && checkSource src iFresh.pulls r aFresh
+  let srcAgree := src.after mBefore.pulls r == aBefore && src.after mAfter.pulls r == aAfter &&
+    src.after mReused.pulls r == aReused && src.after mReused.pulls r == aFresh
   let reuseHolds := checkReuse reprSame iBefore iAfter iReused iFresh &&
     checkTake prefixKinds src k iBefore && checkTake userKinds src k iReused
   let reuseAgree := mBefore == iBefore && mAfter == iAfter && mReused == iReused && mReused == iFresh
@@ -248,11 +291,12 @@ def runIter (j : Json) : Except String Json := do
     | .str "all" => do
       let m := obsOfRun (runAll d2.kinds src FUEL)
       let i ← takeOfJson mainJ
-      let agree := m.fin == i.fin && m.pulls == i.pulls && (m.fin != .exhausted || m.items == i.items)
-      pure (agree, checkAll userKinds src i, takeToJson m, s!"all-{finName m.fin}")
+      let a ← afterOfJson mainJ
+      let agree := m.fin == i.fin && m.pulls == i.pulls && (m.fin != .exhausted || m.items == i.items) &&
+        src.after m.pulls r == a
+      pure (agree, checkAll userKinds src i && checkSource src i.pulls r a, takeToJson m, s!"all-{finName m.fin}")
     | _ => do
-      let keyName ← modeJ.getObjValAs? String "first"
-      let key ← fnOf keyName
+      let key ← firstKey modeJ
       let m := runFirst d2.kinds src FUEL key
       let i ← firstOfJson (← mainJ.getObjVal? "first")
       let ip ← mainJ.getObjValAs? Nat "pulls"
@@ -260,19 +304,131 @@ def runIter (j : Json) : Except String Json := do
       let sameKind := match mo, i with
         | .raised _, .raised _ => true      -- class of a key error: see `checkFirst`
         | a, b => a == b
-      pure ((mo == i || sameKind) && m.2 == ip, checkFirst userKinds src key i ip,
+      let a ← afterOfJson mainJ
+      pure ((mo == i || sameKind) && m.2 == ip && src.after m.2 r == a,
+        checkFirst userKinds src key i ip && checkSource src ip r a,
         Json.mkObj [("first", firstToJson mo), ("pulls", m.2)],
         s!"first-{match mo with | .found _ => "found" | .default => "default" | .raised e => "raised-" ++ e | .oof => "oof"}"))
   let oof := mBefore.fin == .oof || mReused.fin == .oof
   if oof then
     return Json.mkObj [("skip", true), ("why", "model ran out of fuel")]
-  let why := (if reuseHolds then "" else "prefix/derived spec: ") ++ (if mainHolds then "" else "main observation")
+  let why := (if reuseHolds then "" else "prefix/derived spec: ") ++ (if mainHolds then "" else "main observation") ++
+    (if srcHolds then "" else " source after the run: items lost / pushed back, or close() called")
   return Json.mkObj [
-    ("agree", reuseAgree && mainAgree), ("holds", reuseHolds && mainHolds),
+    ("agree", reuseAgree && mainAgree && srcAgree), ("holds", reuseHolds && mainHolds && srcHolds),
     ("model", Json.mkObj [("before", takeToJson mBefore), ("after", takeToJson mAfter),
-      ("reused", takeToJson mReused), ("main", mainModel)]),
+      ("reused", takeToJson mReused), ("main", mainModel),
+      ("src_after", afterToJson (src.after mReused.pulls r))]),
     ("need", needFrom userKinds src (srcLen src) k (primeNeed userKinds src (srcLen src))),
     ("branch", br), ("why", why)]
+
+/-! ### several pipelines over one source object -/
+
+def stepObsToJson : StepObs → Json
+  | .run o => takeToJson o
+  | .first o p => Json.mkObj [("first", firstToJson o), ("pulls", p)]
+
+def stepObsOfJson (m : Mode) (j : Json) : Except String StepObs := do
+  match m with
+  | .first _ => return .first (← firstOfJson (← j.getObjVal? "first")) (← j.getObjValAs? Nat "pulls")
+  | _ => return .run (← takeOfJson j)
+
+/-- model and implementation observed the same thing at one step (`all()` that raised has no
+    items; the class of an exception raised by the key of `first` is not compared) -/
+def stepAgree (m : Mode) (a b : StepObs) : Bool :=
+  match m, a, b with
+  | .take _, .run x, .run y => x == y
+  | .all, .run x, .run y => x.fin == y.fin && x.pulls == y.pulls && (x.fin != .exhausted || x.items == y.items)
+  | .first _, .first x p, .first y q =>
+    p == q && (match x, y with | .raised _, .raised _ => true | u, v => u == v)
+  | _, _, _ => false
+
+def stepOfJson (j : Json) : Except String Step := do
+  let pipe ← j.getObjValAs? Nat "pipe"
+  let mj ← j.getObjVal? "mode"
+  match mj with
+  | .str "take" => return ⟨pipe, .take (← j.getObjValAs? Nat "k")⟩
+  | .str "all" => return ⟨pipe, .all⟩
+  | _ => return ⟨pipe, .first (← firstKey mj)⟩
+
+def pipeOfJson (j : Json) : Except String (List Kind) := do
+  let subName ← j.getObjValAs? String "sub"
+  let some sub := baseCatalogue subName | throw s!"unknown subspec {subName}"
+  let sentinel ← (match j.getObjVal? "sentinel" with
+    | .ok .null => pure none
+    | .ok sj => do return some (← vOfJson (← sj.getObjVal? "v"))
+    | .error _ => pure none)
+  let ops ← (← arr (← j.getObjVal? "ops")).mapM entryOfJson
+  return .base sub sentinel :: ops.map (·.kind)
+
+/-- the model: the steps run one after the other on the same source, which is at position
+    `pos`; a `take` step keeps its suspended chain in `live` -/
+def modelSteps (src : Src) (pipes : List (List Kind)) :
+    List Step → Nat → List (Option (List StageSt)) → List StepObs → List StepObs
+  | [], _, _, acc => acc.reverse
+  | st :: rest, pos, live, acc =>
+    let kinds := pipes.getD st.pipe []
+    match st.mode with
+    | .take k =>
+      let started : Built := match live.getD st.pipe none with
+        | some sts => .ok sts pos
+        | none => construct src FUEL kinds [] pos
+      match started with
+      | .ok sts pos' =>
+        let (out, sts') := takeK src FUEL k sts pos' []
+        let o := StepObs.run (obsOfRun out)
+        if o.raised || o.oof then (o :: acc).reverse
+        else modelSteps src pipes rest out.pulls (setAt live st.pipe (some sts')) (o :: acc)
+      | .err e pos' => (StepObs.run ⟨[], .raised e, pos'⟩ :: acc).reverse
+      | .oof => (StepObs.run ⟨[], .oof, pos⟩ :: acc).reverse
+    | .all =>
+      let out := runAllFrom kinds src FUEL pos
+      let o := StepObs.run (obsOfRun out)
+      if o.raised || o.oof then (o :: acc).reverse else modelSteps src pipes rest out.pulls live (o :: acc)
+    | .first key =>
+      let out := runFirstFrom kinds src FUEL key pos
+      let o := StepObs.first (firstObsOf out.1) out.2
+      if o.raised || o.oof then (o :: acc).reverse else modelSteps src pipes rest out.2 live (o :: acc)
+
+def runReuse (j : Json) : Except String Json := do
+  let src ← srcOfJson (← j.getObjVal? "src")
+  let (xs, tail) := match src with
+    | .fin xs tail => (xs, tail)
+    | .inf _ => ([], none)
+  let pipes ← (← arr (← j.getObjVal? "pipes")).mapM pipeOfJson
+  let steps ← (← arr (← j.getObjVal? "steps")).mapM stepOfJson
+  let impl ← j.getObjVal? "impl"
+  let r := probeCount j
+  if !(pipes.all (·.all Kind.wf)) then
+    return Json.mkObj [("skip", true), ("why", "stage arguments outside the modelled domain")]
+  if steps.any (fun s => s.pipe ≥ pipes.length) then throw "step names a pipe that does not exist"
+  let obsJ ← arr (← impl.getObjVal? "steps")
+  if obsJ.length > steps.length then throw "more observations than steps"
+  let iObs ← (steps.take obsJ.length |>.zip obsJ).mapM (fun (s, o) => stepObsOfJson s.mode o)
+  let iAfter ← afterOfJson impl
+  let none0 : List (Option (List StageSt)) := pipes.map (fun _ => none)
+  let mObs := modelSteps src pipes steps 0 none0 []
+  if mObs.any StepObs.oof then
+    return Json.mkObj [("skip", true), ("why", "model ran out of fuel")]
+  let mPos := match mObs.getLast? with | some o => o.pulls | none => 0
+  let iPos := match iObs.getLast? with | some o => o.pulls | none => 0
+  let agree := mObs.length == iObs.length &&
+    ((steps.zip (mObs.zip iObs)).all fun (s, a, b) => stepAgree s.mode a b) && src.after mPos r == iAfter
+  -- the observations stop early only at an exception
+  let complete := iObs.length == steps.length || (match iObs.getLast? with | some o => o.raised | none => false)
+  let stepsHold := complete && checkSteps xs tail pipes (steps.take iObs.length) iObs 0 (pipes.map fun _ => {})
+  let srcHolds := checkSource src iPos r iAfter
+  let why := (if stepsHold then "" else "a step does not yield the composition over the remaining source items") ++
+    (if srcHolds then "" else " source after the run: items lost / pushed back, or close() called")
+  let form := match j.getObjValAs? String "form" with | .ok f => f | .error _ => "calls"
+  let lastName := match mObs.getLast? with
+    | some (.run o) => finName o.fin
+    | some (.first o _) => (match o with | .found _ => "found" | .default => "default" | .raised e => "raised-" ++ e | .oof => "oof")
+    | none => "none"
+  return Json.mkObj [
+    ("agree", agree), ("holds", stepsHold && srcHolds),
+    ("model", Json.mkObj [("steps", Json.arr (mObs.map stepObsToJson).toArray), ("src_after", afterToJson (src.after mPos r))]),
+    ("branch", s!"reuse-{form}-{mObs.length}-{lastName}"), ("why", why)]
 
 /-! ### Invoke -/
 
@@ -364,6 +520,7 @@ def runInvoke (j : Json) : Except String Json := do
 def run (j : Json) : Except String Json := do
   match j.getObjValAs? String "kind" with
   | .ok "invoke" => runInvoke j
+  | .ok "reuse" => runReuse j
   | _ => runIter j
 
 end Glom.C17.Driver
